@@ -474,14 +474,33 @@ func main() {
 		child(os.Args[2], os.Args[3])
 		return
 	}
+	if len(os.Args) >= 4 && os.Args[1] == "-cchild" {
+		cchild(os.Args[2], os.Args[3])
+		return
+	}
 	r := hlib.Start()
-	r.Rule = "random mutation histories (puts, deletes, prefix append/remove over 4 children so conflicting appends are frequent, imports, key removals) run by the real aof store in a child process; crash images = every prefix of the strace-recorded file operations (mkdir, create, write, rename, unlink, fsync, close) interleaved with the issued/acked markers, plus SIGKILL at seeded protocol lines; each image reopened with the real aof.New; non-trivial = distinct history"
+	r.Rule = "random mutation histories (puts, deletes, prefix append/remove over 4 children so conflicting appends are frequent, imports, key removals) run by the real aof store in a child process; crash images = every prefix of the strace-recorded file operations (mkdir, create, write, rename, unlink, fsync, close) interleaved with the issued/acked markers, plus SIGKILL at seeded protocol lines; each image reopened with the real aof.New; the same for plans with CONCURRENT callers (rounds of 2-4 goroutines released together, identical / conflicting prefix appends, puts, imports, key removals on 2 keys x 2 children, optionally the writer goroutine started after the callers are parked; child under strace --seccomp-bpf, image after every file operation incl. those between a frame write and the end of a roll-back; SIGKILL runs); non-trivial = distinct history / plan"
 	rng := hlib.NewRng(r.Seed)
 	if _, err := exec.LookPath("strace"); err != nil {
 		r.Count("strace-missing")
 	}
 
 	if r.Replay != "" {
+		var planLines [][]string
+		for _, t := range r.ReplayLines() {
+			if len(t) >= 2 && t[0] == "cplan" {
+				planLines = append(planLines, t[1:])
+			}
+		}
+		if len(planLines) > 0 {
+			// the schedule of the callers is not recorded: the plan is run several times
+			for i := 0; i < 6; i++ {
+				c := &concRun{r: r, rng: rng, p: parsePlan(planLines)}
+				c.run(2)
+			}
+			r.Finish()
+			return
+		}
 		var ops []aofh.Op
 		for _, t := range r.ReplayLines() {
 			if o, ok := aofh.ParseOp(t); ok {
@@ -509,6 +528,23 @@ func main() {
 		}
 		c := &caseRun{r: r, rng: rng, ops: ops}
 		c.run(kills, 1)
+	}
+	ccases := 10
+	if r.Thorough() {
+		ccases = 60
+	}
+	for i := 0; i < ccases; i++ {
+		p := genPlan(rng, r.Thorough())
+		if i == 0 { // the classic, concurrently: the same prefix append from every caller, then a put
+			p = &plan{late: true}
+			for t := 0; t < 3; t++ {
+				p.add(0, t, aofh.Op{Kind: "app", Key: []byte("a"), Val: []byte("c1")})
+			}
+			p.add(1, 0, aofh.Op{Kind: "put", Key: []byte("b"), Val: []byte("v")})
+			p.add(1, 1, aofh.Op{Kind: "app", Key: []byte("a"), Val: []byte("c1")})
+		}
+		c := &concRun{r: r, rng: rng, p: p}
+		c.run(kills)
 	}
 	r.Finish()
 }
